@@ -63,6 +63,7 @@ for rnd, outs, ress, suffix in ((1, "out", "results", ""), (2, "out2", "results2
                     "demo_exit_changed_tree": r0.get("demo_changed_exit"),
                     "demo_exit_unchanged_tree": r0.get("demo_unchanged_exit"),
                 },
+                "repo_commit_of_last_run": runs[-1].get("repo_commit"),
                 "checks_run": checks,
                 "detected_by": det,
             }
